@@ -215,7 +215,7 @@ struct SessionState {
     last_recorded_time: Option<tokio::time::Instant>,
     last_broadcast_type: Option<BroadcastConfirmMode>,
     // the last solicited / unsolicited response sent carried IIN1.0 for the pending confirm-mandatory broadcast
-    sol_reported_broadcast: bool,
+    sol_reported_broadcast: Option<Sequence>,
     unsol_reported_broadcast: bool,
 }
 
@@ -231,7 +231,7 @@ impl SessionState {
             deferred_read: DeferredRead::new(max_read_headers),
             last_recorded_time: None,
             last_broadcast_type: None,
-            sol_reported_broadcast: false,
+            sol_reported_broadcast: None,
             unsol_reported_broadcast: false,
         }
     }
@@ -244,10 +244,10 @@ impl SessionState {
     }
 
     // a confirm only acknowledges a broadcast that the confirmed response reported
-    fn on_solicited_confirm(&mut self) {
-        if self.sol_reported_broadcast {
+    fn on_solicited_confirm(&mut self, seq: Sequence) {
+        if self.sol_reported_broadcast == Some(seq) {
             self.last_broadcast_type = None;
-            self.sol_reported_broadcast = false;
+            self.sol_reported_broadcast = None;
         }
     }
 
@@ -454,7 +454,11 @@ impl OutstationSession {
         database: &DatabaseHandle,
     ) -> Result<Response, LinkError> {
         response.header.iin |= self.get_response_iin(database);
-        self.state.sol_reported_broadcast = self.state.is_broadcast_confirm_pending();
+        self.state.sol_reported_broadcast = if self.state.is_broadcast_confirm_pending() {
+            Some(response.header.control.seq)
+        } else {
+            None
+        };
 
         // Determine if we need to ask for confirmation due to broadcast
         if let Some(BroadcastConfirmMode::Mandatory) = self.state.last_broadcast_type {
@@ -797,9 +801,9 @@ impl OutstationSession {
                     Ok(UnsolicitedWaitResult::ReadNext)
                 }
             }
-            FragmentType::SolicitedConfirm(_) => {
+            FragmentType::SolicitedConfirm(seq) => {
                 if self.state.is_broadcast_confirm_pending() {
-                    self.state.on_solicited_confirm();
+                    self.state.on_solicited_confirm(seq);
                 } else {
                     tracing::warn!("ignoring solicited confirm");
                 }
@@ -1963,7 +1967,7 @@ impl OutstationSession {
         request: Request<'_>,
     ) {
         self.state.last_broadcast_type = Some(mode);
-        self.state.sol_reported_broadcast = false;
+        self.state.sol_reported_broadcast = None;
         self.state.unsol_reported_broadcast = false;
         let action = self
             .process_broadcast_get_action(frame_id, database, request)
@@ -2073,7 +2077,7 @@ impl OutstationSession {
                 .await?
             {
                 Confirm::Yes(respond_to) => {
-                    self.state.on_solicited_confirm();
+                    self.state.on_solicited_confirm(series.ecsn);
 
                     database
                         .clear_written_events(self.application.as_mut())
